@@ -112,6 +112,36 @@ def cases(tier, seed):
                        'nmax': 48},
                 'n_tuples': int(r.choice([12, 24, 40])),
                 'seed': int(r.randint(1000))})
+  # coarse lattices (grid data, few levels per feature): pair differences are
+  # axis-aligned or diagonal, the PSD projection clips whole axes to exactly
+  # zero, and dissimilar pairs may lie exactly in the null space of an iterate
+  for i in range(60 if q else 2000):
+    r = rng_for('c14-lattice', seed, i)
+    out.append({'est': 'MMC', 'tight': False,
+                'lattice': int(2 + i % 3),
+                'params': {'init': ['identity', 'covariance'][i % 2],
+                           'max_iter': 30, 'max_proj': 10000,
+                           'tol': [1e-3, 1e-6][(i // 2) % 2],
+                           'diagonal': False},
+                'ds': {'seed': int(r.randint(2**31 - 1)),
+                       'd': 2 if i % 4 else 3, 'classes': 2,
+                       'variant': 'plain', 'nmax': 16},
+                'n_tuples': int(r.choice([3, 4, 6, 8])),
+                'seed': int(r.randint(1000))})
+  # dissimilar pairs in the null space of a singular iterate (their
+  # quadratic form is rounding noise of either sign): a small design of
+  # integer displacements, in all orientations
+  for i in range(8 if q else 96):
+    r = rng_for('c14-null', seed, i)
+    out.append({'est': 'MMC', 'tight': False,
+                'nullspace': {'perm': [int(x) for x in r.permutation(3)],
+                              'signs': [int(x) for x in r.choice([-1, 1], 3)],
+                              'base': [int(x) for x in r.randint(-3, 4, 3)]},
+                'params': {'init': 'identity', 'max_iter': [100, 30][i % 2],
+                           'max_proj': 10000, 'tol': 1e-3, 'diagonal': False},
+                'ds': {'seed': int(r.randint(2**31 - 1)), 'd': 3,
+                       'classes': 2, 'variant': 'plain', 'nmax': 16},
+                'n_tuples': 4, 'seed': int(r.randint(1000))})
   return out
 
 
@@ -181,7 +211,8 @@ def _reference_need(A0, S, t, cap, eps=0.01):
   return None
 
 
-def _reference_cycles(A0, S, Dn, t, max_iter, max_proj, tol, eps=0.01):
+def _reference_cycles(A0, S, Dn, t, max_iter, max_proj, tol, eps=0.01,
+                      noise_sign=0):
   """Sequential re-execution of the full-matrix scheme (Xing et al. as the
   library documents it): per cycle the matrix the cycle started from, the
   projected candidate, and whether a decision of that cycle was too close to
@@ -199,16 +230,43 @@ def _reference_cycles(A0, S, Dn, t, max_iter, max_proj, tol, eps=0.01):
     return float(np.log(sum(np.sqrt(max(v.dot(A).dot(v), 0.0)) for v in Dn)
                         + 1e-6))
 
+  noisy = [False]
+
   def fD1(A):
-    dist = np.array([np.sqrt(max(v.dot(A).dot(v), 0.0)) for v in Dn])
+    # A dissimilar pair that lies (mathematically) in the null space of the
+    # iterate has a quadratic form that is pure rounding noise, q ~ +-1e-17,
+    # and the documented weight 0.5 / (sqrt(q) + 1e-6) turns that noise into
+    # a relative change of a percent.  noise_sign = +1 / -1 evaluates the
+    # weight at the two ends of the rounding interval of q (an envelope for
+    # what a correct implementation may compute); the caller compares the
+    # next candidate with the envelope and stops there.
+    nA = np.abs(A).max()
+    qs = []
+    for v in Dn:
+      q_ = v.dot(A).dot(v)
+      dq = 64 * np.finfo(float).eps * nA * v.dot(v) * d
+      lo, hi = np.sqrt(max(q_ - dq, 0.0)), np.sqrt(max(q_ + dq, 0.0))
+      if hi - lo > 1e-4 * (lo + 1e-6):
+        noisy[0] = True
+        q_ = max(q_ + noise_sign * dq, 0.0) if noise_sign else q_
+      qs.append(q_)
+    dist = np.array([np.sqrt(max(q_, 0.0)) for q_ in qs])
     G = np.zeros((d, d))
     for v, di in zip(Dn, dist):
       G += np.outer(v, v) * (0.5 / (di + 1e-6))
     return G / (dist.sum() + 1e-6)
 
+  degenerate = [False]
+
   def gproj(g1, g2):
     g2 = g2 / np.linalg.norm(g2)
     g = g1 - np.sum(g1 * g2) * g2
+    # (gradients that are parallel up to rounding - e.g. the same
+    # displacements judged similar and dissimilar, with equal weights - leave
+    # a remainder that is pure rounding noise; normalising it gives a
+    # direction no two evaluations agree on)
+    if np.linalg.norm(g) <= 1e-8 * np.linalg.norm(g1):
+      degenerate[0] = True
     return g / np.linalg.norm(g)
 
   w = fS1().ravel()
@@ -240,8 +298,13 @@ def _reference_cycles(A0, S, Dn, t, max_iter, max_proj, tol, eps=0.01):
     obj_prev, obj = fD(A_old), fD(A)
     if abs(obj - obj_prev) <= 1e-10 * max(abs(obj), 1.0) and cycle > 0:
       close = True
-    out.append({'A_old': A_old.copy(), 'cand': A.copy(), 'close': close})
-    if close:
+    if degenerate[0]:
+      close = True
+    out.append({'A_old': A_old.copy(), 'cand': A.copy(), 'close': close,
+                'noisy': noisy[0]})
+    if close or noisy[0]:
+      # (a candidate computed from noise-level weights is compared with the
+      # envelope by the caller; nothing after it is comparable)
       break
     if satisfy and (obj > obj_prev or cycle == 0):
       alpha *= 1.05
@@ -314,10 +377,47 @@ def run_case(spec, j):
   ds = common.dataset(spec['ds'])
   X = np.asarray(ds['X'], dtype=float)
   d = ds['d']
+  if spec.get('lattice'):
+    # distinct points of {0, .., levels - 1}^d (as many as the lattice has,
+    # at most), labels kept
+    from ..workloads.data import _distinct_rows
+    lv = spec['lattice']
+    rl = rng_for('c14-lattice-data', spec['ds']['seed'])
+    keep = min(len(X), lv ** d)
+    pick = rl.choice(lv ** d, size=keep, replace=False)
+    Xl = np.array(np.unravel_index(pick, (lv,) * d), dtype=float).T
+    yk = np.asarray(ds['y'])[:keep]
+    if len(set(yk.tolist())) < 2 or min(np.bincount(yk)) < 2:
+      yk = np.arange(keep) % 2
+    ds = dict(ds, X=Xl, y=yk, n=keep, t=np.asarray(ds['t'])[:keep])
+    X = Xl
+    j.count('lattice-designs')
   f = common.build(spec, ds, use_fast=False)
   p = f.meta['params']
   seed = p['random_state']
   det = {'est': name, 'params': spec['params'], 'd': d}
+  if spec.get('nullspace'):
+    g = spec['nullspace']
+    sg = np.array(g['signs'], dtype=float)
+    Sv = np.array([[0, 1, -1], [-1, -1, 0]], dtype=float)[:, g['perm']] * sg
+    Dv = np.array([[1, 1, -2], [-1, -2, 1]], dtype=float)[:, g['perm']] * sg
+    b0 = np.array(g['base'], dtype=float)
+    f.args = (np.array([[b0, b0 + v] for v in np.vstack([Sv, Dv])]),
+              np.array([1, 1, -1, -1]))
+    det['family'] = 'null-space design'
+    j.count('null-space-designs')
+  if spec.get('lattice'):
+    det['lattice_levels'] = spec['lattice']
+    if spec['ds']['seed'] % 2 and len(f.args) == 2:
+      # the same displacement judged similar for one pair of points and
+      # dissimilar for another (conflicting judgments are legal input)
+      P_, y_ = np.asarray(f.args[0], dtype=float), np.asarray(f.args[1])
+      if P_.ndim == 3 and (y_ == 1).any():
+        a_ = P_[np.flatnonzero(y_ == 1)[0]]
+        sh = np.zeros(d)
+        sh[spec['ds']['seed'] % d] = 1.0
+        f.args = (np.vstack([P_, (a_ + sh)[None]]), np.r_[y_, -1])
+        j.count('lattice-echo-pair')
   del _cap['fD'][:]
   del _cap['fit'][:]
   api.set_judge(j, well_formed=not p['diagonal'])
@@ -470,6 +570,29 @@ def run_case(spec, j):
     cand = trace[2 * c + 1][0]
     sc = max(np.abs(rc['cand']).max(), 1e-300)
     if rc['close']:
+      break
+    if rc['noisy']:
+      # the step that led to this candidate used weights at the noise level
+      # of a quadratic form: the library's candidate has to lie on the
+      # segment between the two ends of the rounding envelope
+      lo_ = _reference_cycles(A0, S, Dn, t, p['max_iter'], p['max_proj'],
+                              p['tol'], noise_sign=-1)
+      hi_ = _reference_cycles(A0, S, Dn, t, p['max_iter'], p['max_proj'],
+                              p['tol'], noise_sign=+1)
+      if len(lo_) <= c or len(hi_) <= c or lo_[c]['close'] or hi_[c]['close']:
+        j.count('candidates.noise-level-weights(not comparable)')
+        break
+      a_, b_ = lo_[c]['cand'].ravel(), hi_[c]['cand'].ravel()
+      ab = b_ - a_
+      tt = 0.0 if not ab.any() else float(
+          np.clip((cand.ravel() - a_).dot(ab) / ab.dot(ab), 0.0, 1.0))
+      dev = np.abs(cand.ravel() - (a_ + tt * ab)).max()
+      j.count('candidates.noise-level-weights(envelope)')
+      ncmp += 1
+      if dev > 1e-6 * sc + 0.05 * np.abs(ab).max():
+        okc = False
+        whyc = dict(cycle=c, envelope=True, max_rel_dev=float(dev / sc),
+                    envelope_width=float(np.abs(ab).max() / sc))
       break
     ncmp += 1
     if np.abs(cand - rc['cand']).max() > 1e-6 * sc:
